@@ -238,6 +238,19 @@ def invariants(chk: Check, n):
         again = cols_of(tt.make_users_data(covariates=cov, seed=seed, n_users=nu, **p))
         if any(not np.array_equal(again[x], u[x]) for x in want_cols):
             chk.fail("the same seed gives different data on a second call", dict(input=inp))
+        # a SeedSequence is a documented seed type: the SAME object passed again must give the same data, for every
+        # return type and for users vs sessions (numpy's default_rng does not consume a SeedSequence)
+        ss = np.random.SeedSequence(seed)
+        first = cols_of(tt.make_users_data(covariates=cov, seed=ss, n_users=nu, **p))
+        second = cols_of(tt.make_users_data(covariates=cov, seed=ss, n_users=nu, return_type="polars", **p))
+        sess = cols_of(tt.make_sessions_data(covariates=cov, seed=ss, n_users=nu, **p))
+        if any(not np.array_equal(first[x], second[x]) for x in want_cols) \
+                or any(not np.array_equal(first[x], u[x]) for x in want_cols):
+            chk.fail("the same SeedSequence object gives different data on a second call / than the integer it wraps",
+                     dict(input=inp))
+        elif not np.array_equal(np.bincount(sess["user"], minlength=nu), first["sessions"]):
+            chk.fail("sessions data made from the same SeedSequence object is not the explosion of the users data",
+                     dict(input=inp))
         bad = None
         if list(u) != want_cols:
             bad = "columns"
